@@ -20,6 +20,7 @@
 #include "vh.h"
 #include <sys/socket.h>
 #include <errno.h>
+#include <sanitizer/asan_interface.h>
 
 enum { W_TREE_SER = 1, W_EL_FIT = 2, W_EL_SHORT = 4, W_PARSE = 8, W_STREAM = 16, W_MUTATE = 32 };
 #define MAXD 9
@@ -144,10 +145,20 @@ static const char *optname(int opt) {
 	switch (opt & 3) { case 0: return "0"; case KSI_TLV_OPT_NO_HEADER: return "NO_HEADER"; case KSI_TLV_OPT_NO_MOVE: return "NO_MOVE"; default: return "NO_HEADER|NO_MOVE"; }
 }
 
-/* ------------------------------------------------------------------ exactly sized output buffers */
-static unsigned char *out_base;
-static unsigned char *out_get(size_t n) { out_base = malloc(n ? n : 1); if (!out_base) die("oom"); memset(out_base, 0xAA, n ? n : 1); return n ? out_base : out_base + 1; }
-static void out_put(void) { free(out_base); out_base = NULL; }
+/* ------------------------------------------------------------------ exactly sized output buffers
+ * The block ends exactly at buf + n (ASan red zone behind it).  In front of buf lies a manually poisoned guard at least as long as
+ * the serialisation is: the right-to-left serialisers can only run off the FRONT of a too small buffer, by at most `reach` bytes,
+ * and a poisoned guard makes ASan classify that always the same way (use-after-poison) instead of depending on what happens to
+ * live in front of the block. */
+static unsigned char *out_base; static size_t out_guard;
+static unsigned char *out_get(size_t n, size_t reach) {
+	out_guard = (reach + 64 + 7) & ~(size_t)7;
+	out_base = malloc(out_guard + n); if (!out_base) die("oom");
+	if (n) memset(out_base + out_guard, 0xAA, n);
+	ASAN_POISON_MEMORY_REGION(out_base, out_guard);
+	return out_base + out_guard;
+}
+static void out_put(void) { ASAN_UNPOISON_MEMORY_REGION(out_base, out_guard); free(out_base); out_base = NULL; }
 
 /* ------------------------------------------------------------------ judging one serialisation attempt */
 static void judge(const char *group, const char *entry, int opt, const unsigned char *exp, size_t explen, int must_refuse, size_t over,
@@ -250,7 +261,7 @@ static void tlv_serialize_checks(const Node *t, const unsigned char *E, const un
 		if (v == 1 && t->elen > 64 && vh_below(4)) continue; /* same code path as v == 0 */
 		make_sizes(explen, 1, 1);
 		for (k = 0; k < nsz; k++) {
-			size_t n = sz[k], l = (size_t)-1; unsigned char *buf = out_get(n); int rc;
+			size_t n = sz[k], l = (size_t)-1; unsigned char *buf = out_get(n, explen); int rc;
 			case_sub(" entry=%s opt=%d n=%zu", names[v], opt, n);
 			if (v == 0) rc = KSI_TLV_serialize_ex(tlv, buf, n, &l);
 			else if (v == 3) { l = n; rc = KSI_TLV_serializePayload(tlv, buf, &l); }
@@ -296,7 +307,7 @@ static void tlv_serialize_checks(const Node *t, const unsigned char *E, const un
 		if (rc != KSI_OK) vh_viol("tlv.getRawValue:fitting-tree:refused", tdesc, "KSI_TLV_getRawValue failed res=0x%x on a built tree", rc);
 		else if (l != t->clen || (l && memcmp(p, content, l))) vh_viol("tlv.getRawValue:wrong-payload", tdesc, "KSI_TLV_getRawValue gives %zu bytes, reference content has %zu (or bytes differ)", l, t->clen);
 		else {
-			size_t n = t->elen, l2 = 0; unsigned char *buf = out_get(n);
+			size_t n = t->elen, l2 = 0; unsigned char *buf = out_get(n, n);
 			rc = KSI_TLV_serialize_ex(tlv, buf, n, &l2);
 			judge("tlv.serialize", "KSI_TLV_getRawValue+KSI_TLV_serialize_ex", 0, E, t->elen, 0, 0, n, rc, buf, l2);
 			out_put();
@@ -348,7 +359,7 @@ static void el_serialize_checks(const Node *t, const unsigned char *E, const uns
 		const unsigned char *exp = (opt & KSI_TLV_OPT_NO_HEADER) ? content : E; size_t explen = (opt & KSI_TLV_OPT_NO_HEADER) ? t->clen : t->elen;
 		make_sizes(explen, lo, hi);
 		for (k = 0; k < nsz; k++) {
-			size_t n = sz[k], l = (size_t)-1; unsigned char *buf = out_get(n); int rc;
+			size_t n = sz[k], l = (size_t)-1; unsigned char *buf = out_get(n, explen); int rc;
 			case_sub(" entry=KSI_TlvElement_serialize opt=%d n=%zu", opt, n);
 			rc = KSI_TlvElement_serialize(el, buf, n, &l, opt);
 			judge("element.serialize", "KSI_TlvElement_serialize", opt, exp, explen, refuse, over, n, rc, (rc == KSI_OK && l <= n) ? ((opt & KSI_TLV_OPT_NO_MOVE) ? buf + n - l : buf) : NULL, l);
@@ -375,7 +386,7 @@ static void el_serialize_checks(const Node *t, const unsigned char *E, const uns
 			size_t n = t->elen, l = 0; unsigned char *buf;
 			if (el->ftlv.hdr_len != (size_t)t->hl || el->ftlv.dat_len != t->clen || memcmp(el->ptr, E, t->elen)) vh_viol("element.detach:wrong-encoding", tdesc, "after KSI_TlvElement_detach the element holds hdr_len=%zu dat_len=%zu, reference %d/%zu (or bytes differ)", el->ftlv.hdr_len, el->ftlv.dat_len, t->hl, t->clen);
 			else vh_count("detach_ok", 1);
-			buf = out_get(n);
+			buf = out_get(n, n);
 			rc = KSI_TlvElement_serialize(el, buf, n, &l, 0);
 			judge("element.serialize", "KSI_TlvElement_detach+KSI_TlvElement_serialize", 0, E, t->elen, 0, 0, n, rc, buf, l);
 			out_put();
@@ -551,7 +562,7 @@ static void stream_one(const unsigned char *S, size_t sl, size_t n, int kind) {
 	{ size_t show = sl > 600 ? 600 : sl; char *hx = vh_hex(S, show); snprintf(rep, sizeof rep, "%s stream[%zu]=%s%s buffer_size=%zu", fn, sl, hx, show < sl ? ".." : "", n); free(hx); }
 	case_sub(" %.1200s", rep);
 	memset(&f, 0xEE, sizeof f);
-	buf = out_get(n);
+	buf = out_get(n, 0);
 	if (kind == 0) {
 		unsigned char *sc; FILE *fp;
 		if (sl == 0) { out_put(); vh_count("skipped_out_of_domain", 1); return; } /* fmemopen cannot represent an empty stream portably */
@@ -626,9 +637,9 @@ static void mutate_checks(Node *t, const unsigned char *E) {
 	memmove(&t->kid[pick], &t->kid[pick + 1], (t->nk - pick - 1) * sizeof *t->kid); t->nk--;
 	measure(t);
 	exp = malloc(t->elen + removed->elen + 8); o = enc(t, exp, NULL); n = (size_t)(o - exp);
-	{ unsigned char *buf = out_get(n); l = 0; rc = KSI_TlvElement_serialize(el, buf, n, &l, 0);
+	{ unsigned char *buf = out_get(n, n); l = 0; rc = KSI_TlvElement_serialize(el, buf, n, &l, 0);
 	  judge("element.edit", "KSI_TlvElement_removeElement+KSI_TlvElement_serialize", 0, exp, n, 0, 0, n, rc, buf, l); out_put(); }
-	{ size_t rn = removed->elen; unsigned char *re = malloc(rn), *buf = out_get(rn); enc(removed, re, NULL); l = 0; rc = KSI_TlvElement_serialize(rem, buf, rn, &l, 0);
+	{ size_t rn = removed->elen; unsigned char *re = malloc(rn), *buf = out_get(rn, rn); enc(removed, re, NULL); l = 0; rc = KSI_TlvElement_serialize(rem, buf, rn, &l, 0);
 	  judge("element.edit", "removed child: KSI_TlvElement_serialize", 0, re, rn, 0, 0, rn, rc, buf, l); out_put(); free(re); }
 	/* put it back with setElement: appended as the last child */
 	case_sub(" edit: remove child %zu, set it again", pick);
@@ -638,7 +649,7 @@ static void mutate_checks(Node *t, const unsigned char *E) {
 	if (rc != KSI_OK) vh_viol("element.setElement:new-child:refused", tdesc, "KSI_TlvElement_setElement(tag 0x%x) res=0x%x", removed->tag, rc);
 	else {
 		unsigned char *buf; o = enc(t, exp, NULL); n = (size_t)(o - exp);
-		buf = out_get(n); l = 0; rc = KSI_TlvElement_serialize(el, buf, n, &l, 0);
+		buf = out_get(n, n); l = 0; rc = KSI_TlvElement_serialize(el, buf, n, &l, 0);
 		judge("element.edit", "KSI_TlvElement_setElement+KSI_TlvElement_serialize", 0, exp, n, 0, 0, n, rc, buf, l); out_put();
 		rc = KSI_TlvElement_detach(el);
 		vh_eval++;
